@@ -333,7 +333,7 @@ var _ = ast.Inspect
 
 func init() {
 	props["C08"] = c08Prop
-	corrs["C08"] = func(c *Ctx) { c08Corr(c); restoreCorr(c) }
+	corrs["C08"] = func(c *Ctx) { c08Corr(c); restoreCorr(c); managedPipeCorr(c) }
 	replays["C08"] = func(c *Ctx, raw json.RawMessage) (bool, string) {
 		var in c08Input
 		if err := json.Unmarshal(raw, &in); err != nil || in.Src == "" {
